@@ -150,6 +150,8 @@ def check_C02(ctx):
          note='all strings over 17 class representatives')
     corr(ctx, 'G-sweep', gens.local_sweep(), project, exhaustive=True, describe=describe,
          note='every byte 0x01-0xff at and around the hole of every scanner-state context')
+    corr(ctx, 'G-tokens(<=%d)' % (n - 1), gens.local_tokens(n - 1), project, exhaustive=True, describe=describe,
+         note='all sequences of 17 tokens (structural characters, complete and broken foldings, escaped quote, non-ASCII), bare and inside a pair of quotes')
     corr(ctx, 'G-rest', gens.local_rest(), project, exhaustive=True, describe=describe,
          note='end pointer inside a longer string (rest = @d, SP, HT, LF, dot)')
     corr(ctx, 'G-random-long', gens.local_random(ctx.rnd, 40000 if not ctx.thorough() else 400000), project, describe=describe)
@@ -260,6 +262,8 @@ def check_C03(ctx):
          note='all 1- and 2-byte sequences, boundary cover of 3- and 4-byte sequences (all 3-byte sequences with a continuation second byte in thorough), '
               'each in 13 contexts: atom, next to dots, quoted, escaped, before and after quoted words')
     corr(ctx, 'G-sweep', gens.local_sweep(), project, exhaustive=True, describe=describe, nontrivial=nontriv)
+    corr(ctx, 'G-tokens(<=%d)' % (n - 1), gens.local_tokens(n - 1), project, exhaustive=True, describe=describe, nontrivial=nontriv,
+         note='all sequences of 17 tokens (structural characters, complete and broken foldings, escaped quote, non-ASCII), bare and inside a pair of quotes')
     corr(ctx, 'G-random-long', gens.local_random(ctx.rnd, 40000 if not ctx.thorough() else 400000), project, describe=describe, nontrivial=nontriv)
     # the end pointer inside a multi-byte character: the bytes that would complete it (or not) lie at and after `end`
     chars = ['\u00e9', '\u042e', '\u07ff', '\u0800', '\u20ac', '\ud7ff', '\ue000', '\uffff', '\U00010000', '\U0001f600', '\U0010ffff']
@@ -605,6 +609,9 @@ def check_C08(ctx):
              'a@б.рф'.encode(), b'bad', b'a@-b.com']
     # reserved and listed names spelt so that only the IDNA mapping turns them into ASCII (full-width letters, ideographic full stop, soft hyphen)
     addrs += [b'a@' + d for d in sub(ctx, gens.mapped_variants(), 3)]
+    # near misses of the reserved names (cut, stretched, glued, one edit away), bare and behind one label: unlisted TLD / not fully qualified whatever the mask
+    near = [d for d in gens.reserved_suffixes() if b'@' not in d]
+    addrs += [b'a@' + p + d for d in sub(ctx, near, 2) for p in (b'', b'x.')]
     orc = vlib.idn_oracle(gens.domains_of(addrs))
     masks = sorted(set([0, 2047, 760, -1] + [1 << k for k in range(12)] + [2047 ^ (1 << k) for k in range(11)]))
     al = ['A i r%d t%d m%d s %s x f' % (m, t, mk, gens.enc_e(a, orc)) for a in addrs for m in range(4) for t in (0, 1) for mk in masks]
@@ -828,6 +835,25 @@ def check_C13(ctx):
                 for (x, m) in ((b'a@[1.2.3.4]', 1), (b'a@-a.org', 3), (b'a@b.com', 3)):
                     pairs.append('A i r%d s %s %s x f' % (m, gens.enc_e(x, orc2), gens.enc_e(y, {})))
                     fresh.append('A i r%d s %s x f' % (m, gens.enc_e(y, {})))
+    # the missing address: eav_is_email (e, NULL, 0) — answered by the library itself ("email is empty") because the length is
+    # tested first; where the tree under check does so on a fresh object, the call must behave as every other one does
+    probe, _ = vlib.run_both(lib, ctx.snap, ['A i s n x f'])
+    if probe and ' R' in probe[0] and 'CRASH' not in probe[0]:
+        nl = []
+        for m in range(4):
+            for x in pool2:
+                nl.append('A i r%d s %s n x f' % (m, gens.enc_e(x, orc2)))
+                nl.append('A i r%d s n %s x n x f' % (m, gens.enc_e(x, orc2)))
+            nl += ['A i r%d s n x f' % m, 'A i r%d s n n x f' % m, 'A i r%d s n x s n x f' % m]
+            for x in pool2:       # relation on the tree's own outputs: after any address == on a fresh object
+                pairs.append('A i r%d s %s n x f' % (m, gens.enc_e(x, orc2))); fresh.append('A i r%d s n x f' % m)
+        if 'NORESULT' not in probe[0]:
+            corr(ctx, 'G-hist(missing address)', nl, lambda ln, o: o, exhaustive=True, describe=desc, nontrivial=lambda ln, o: ' R' in o,
+                 note='eav_is_email (e, NULL, 0) before / after / between validations of 16 addresses of every outcome class, all four modes')
+        else:
+            ctx.rep.notes.append('eav_is_email (e, NULL, 0) leaves no result record on a fresh object on this tree: compared with itself after other addresses, not with the model')
+    else:
+        ctx.rep.notes.append('eav_is_email (e, NULL, 0) on a fresh object does not return on this tree (%s): histories with a missing address are skipped' % (probe[0] if probe else 'no output'))
     c_p, _ = vlib.run_both(lib, ctx.snap, pairs)
     c_f, _ = vlib.run_both(lib, ctx.snap, fresh)
     ctx.rep.add_cases('reused-vs-fresh', pairs, c_p, lambda ln, o: True, note='relation on implementation outputs: last eav_is_email + eav_errstr of a history == same call on a fresh object with the same settings')
@@ -1011,6 +1037,8 @@ def check_C19(ctx):
     codes = [int(x) for x in re.findall(r'\((-?\d+)\)%Z', open(os.path.join(vlib.COQ, 'Gen', 'GenIdnCodes.v')).read())]
     codes = sorted(set(c for c in codes if c != 0 and c < 0)) + [7, -1, -999]
     pool = [b'a@b.org', 'и@почта.рф'.encode(), b'a@test', b'"q"@x.y.zz', b'a@b']
+    # names that already are (or contain) A-labels, well-formed and not, and names the real library refuses by itself
+    pool += [b'ivan@xn--c1ad6a.xn--p1ai', b'a@xn--n3h.ws', b'a@XN--N3H.com', b'a@b.xn--p1ai', b'i@xn--i-7iq.ws', b'a@xn--a.de', 'a@ｂ。com'.encode(), 'a@☃.net'.encode()]
     orc = vlib.idn_oracle(gens.domains_of(pool))
     desc = lambda ln, a, b: 'outcome under an injected IDN failure (code/buffer in the case line) differs from the model of theorems C19_*: %s vs %s' % (a, b)
     lines = []
@@ -1022,7 +1050,9 @@ def check_C19(ctx):
                     lines.append('E 3 %d %s %d - %d' % (t, hx(a), c, buf))
                     lines.append('U %d %s %d - %d' % (t, hx(d), c, buf))
     corr(ctx, 'single-call faults', lines, lambda ln, o: o, exhaustive=True, describe=desc, nontrivial=lambda ln, o: True,
-         note='every libidn2 return code (+ unknown codes) x with/without an output buffer x 5 addresses x tld off/on, direct validator and is_utf8_domain')
+         note='every libidn2 return code (+ unknown codes) x with/without an output buffer x 13 addresses (plain, IDN, A-labels, mapped, refused by the real library) x tld off/on, direct validator and is_utf8_domain')
+    nat = gens.e_lines(pool, orc, modes=(3,), tlds=(0, 1)) + facade_lines(pool, orc, modes=(3,), tlds=(0, 1))
+    corr(ctx, 'natural answers', nat, lambda ln, o: o, exhaustive=True, describe=desc, nontrivial=lambda ln, o: True, note='the same addresses with the answer the real libidn2 gives')
     # runs of 1..50 validations with a single fault at each position, and seeded multi-fault runs
     runs = []
     nrun = 12 if not ctx.thorough() else 50
@@ -1404,6 +1434,14 @@ def cli_files(rnd, n, big):
     # line lengths around the sizes a line buffer might have
     for k in (118, 119, 120, 126, 127, 128, 129, 254, 255, 256, 257, 510, 511, 512, 513, 1022, 1023, 1024, 1025, 4094, 4095, 4096, 4097):
         files.append(b'a' * k + b'\n' + b'a@b.com\n'); files.append(b'a@' + b'b' * k + b'\r\n' + b'x@y.org'); files.append(b' ' + b'\xd0\xb0' * (k // 2) + b'@b.com \n')
+    # staircases: one file whose lines grow by one octet from 1 to N (and one that shrinks), of octets that are all escaped in the echo
+    # (ill-formed UTF-8, a control character), all echoed as they are (a letter, a 2-octet character) — an echo / line buffer sized for the
+    # longest line seen so far, or for the longest possible address, is filled exactly to its end at some step
+    top = 2000 if big else 700
+    for unit in (b'\xff', b'\x01', b'a', b'\xd0\xb0', b'\xf0\x9f\x98\x80'):
+        files.append(b''.join(unit * k + b'\n' for k in range(1, top // len(unit) + 1)))
+    files.append(b''.join(b'\xff' * k + b'\n' for k in range(top, 0, -1)))
+    files.append(b'a@b.cc\n' + b''.join(b'\xff' * k + b'\r\n' for k in range(250, top, 7)) + b'\x01' * 321)
     files += [b'', b'\n', b'\n\n\n', b' \n', b'a@b.com', b'a@b.com\r', b'a@b.com\r\r\n', b'#\n', b'#', b' ', b'\x00\n', b'a@b.com\n\n \n#c\n good@xn--p1ai.com \n']
     return files
 
